@@ -16,7 +16,7 @@ DEPENDS = {
     "C10": ["C11.3", "C11.4", "C11.5"],
     "C13": ["C07.4", "C07.6", "C20.1"],
     "C14": ["C07.1", "C07.3", "C07.6", "C19.4"],
-    "C16": ["C07.1", "C07.6", "C14.1", "C14.3"],
+    "C16": ["C07.1", "C07.3", "C07.6", "C14.1", "C14.3"],
     "C17": ["C11.3", "C11.4", "C11.5", "C10.1", "C01.1", "C01.2"],
     "C18": ["C11.2", "C11.3", "C11.4", "C11.5", "C10.1", "C10.2", "C09.4"],
     "C20": ["C07.3"],
